@@ -385,3 +385,28 @@ func (s *Sim) NewMppMeltQuote(msat, partMsat uint64) *MeltQ {
 func (s *Sim) Summary() string {
 	return fmt.Sprintf("ops=%d coins=%d sigs=%d mintq=%d meltq=%d stats=%v", s.NOps, len(s.Coins), len(s.Sigs), len(s.MintQs), len(s.MeltQs), s.Stats)
 }
+
+// DirectedLockedMelt: a key-locked coin (spent with a witness) is melted, the payment stays in flight,
+// then succeeds (or fails) at the node, and the melt is resolved by a quote poll or left to the next
+// state check of the monitor. Every history gets this sequence whatever the PRNG chose, so that
+// witnesses of PENDING and of SPENT-after-deferred-settlement proofs are looked at.
+func (s *Sim) DirectedLockedMelt(success, poll bool) {
+	c := s.FundP2PK(64)
+	if c == nil {
+		return
+	}
+	q := s.NewMeltQuote(20_000)
+	if q == nil {
+		return
+	}
+	in := []*Coin{c}
+	if st, _ := s.Melt(q, in, Proofs(in), lnmodel.PayPlan{Answer: lnmodel.APending, Truth: lnmodel.InFlight}, ""); st != "PENDING" {
+		return
+	}
+	s.W.Resolve(s.E.Name, q.Hash, success)
+	s.logf("ln-resolve %s success=%v (directed)", q.Id[:8], success)
+	s.done("ln-resolve")
+	if poll {
+		s.PollMelt(q)
+	}
+}
